@@ -157,20 +157,25 @@ func Start(response http.ResponseWriter, request *http.Request, createIfNew bool
 
 			// If this is a reference session, get the original one.
 			if session.referenceID != "" {
-				// Redirect cookie to reference session.
+				// The ID may have been replaced more than once during the grace
+				// period. Follow the references to the current session.
+				var currentID string
+				for session.referenceID != "" {
+					currentID = session.referenceID
+					session, err = sessions.Get(currentID)
+					if err != nil {
+						return nil, fmt.Errorf("Could not get referenced session: %s", err)
+					}
+					if session == nil {
+						return nil, errors.New("Reference session not found")
+					}
+				}
+
+				// Redirect cookie to the current session.
 				cookie = NewSessionCookie()
 				cookie.Name = SessionCookie
-				cookie.Value = session.referenceID
+				cookie.Value = currentID
 				http.SetCookie(response, cookie)
-
-				// Get the referenced session.
-				session, err = sessions.Get(session.referenceID)
-				if err != nil {
-					return nil, fmt.Errorf("Could not get referenced session: %s", err)
-				}
-				if session == nil {
-					return nil, errors.New("Reference session not found")
-				}
 			}
 
 			// We have a valid session.
